@@ -121,6 +121,20 @@ Proof.
   rewrite h_meta in Hw. apply (WO k f0 w Hin). unfold meta_wake in Hw. destruct (fm_st (meta f0)); try exact Hw.
   destruct (fm_w (meta f0)) as [w0|] eqn:Q; [|rewrite Q in Hw; exact Hw]. destruct (mem_nat w0 wk); [cbn in Hw; exact Hw | rewrite Q in Hw; exact Hw].
 Qed.
+(* the counts after one poll of the future [fid] (replaced by [f']) followed by the wake-up pass for [wk] *)
+Lemma upd_wake_counts l fid k f f' wk : NoDup (map fst l) -> wakers_ok l -> (k < 4)%nat ->
+  alookup fid l = Some f -> fm_w (meta f') = Some (wtag fid k) ->
+  cW (wake_all wk (aupdate fid f' l)) + wW f <= cW l + wW f' + N.of_nat (length wk) /\
+  cP (wake_all wk (aupdate fid f' l)) + wP f = cP l + wP f'.
+Proof.
+  intros ND WO K4 L Hw.
+  assert (ND' : NoDup (map fst (aupdate fid f' l))) by (rewrite keys_aupdate; exact ND).
+  assert (WO' : wakers_ok (aupdate fid f' l)).
+  { apply wakers_ok_aupdate; [exact WO|]. intros w E. rewrite Hw in E. inversion E. exists k. split; [exact K4 | reflexivity]. }
+  pose proof (cW_wake wk _ ND' WO') as CW. rewrite cP_wake.
+  pose proof (asum_aupdate wW fid f f' l L) as UW. pose proof (asum_aupdate wP fid f f' l L) as UP. unfold cW, cP in *. split; lia.
+Qed.
+
 End Settle.
 
 (* ---------- counting notified entries ---------- *)
